@@ -3,32 +3,60 @@
 `const uint8_t ... raid_<name>[dims] = { ... };` and flattens the hex bytes in source order."""
 import re, sys
 
+def _nested(body):
+    """parse a C brace initialiser (numbers and nested braces only) into nested python lists"""
+    toks = re.findall(r'\{|\}|0x[0-9a-fA-F]+|\d+', body)
+    pos = 0
+
+    def lst():
+        nonlocal pos
+        out = []
+        while pos < len(toks):
+            t = toks[pos]
+            if t == '{':
+                pos += 1
+                out.append(lst())
+            elif t == '}':
+                pos += 1
+                return out
+            else:
+                pos += 1
+                out.append(int(t, 16) if t.startswith('0x') else int(t))
+        return out
+    return lst()
+
+
+def _fill(node, dims):
+    """C semantics: missing trailing initialisers at any level are zero"""
+    if len(dims) == 1:
+        if any(isinstance(x, list) for x in node) or len(node) > dims[0]:
+            raise SystemExit("UNSUPPORTED initialiser shape")
+        return node + [0] * (dims[0] - len(node))
+    if any(not isinstance(x, list) for x in node) or len(node) > dims[0]:
+        raise SystemExit("UNSUPPORTED initialiser shape")
+    n = 1
+    for d in dims[1:]:
+        n *= d
+    out = []
+    for x in node:
+        out += _fill(x, dims[1:])
+    return out + [0] * (n * (dims[0] - len(node)))
+
+
 def parse(src):
     out = {}
     for m in re.finditer(r'const\s+uint8_t\s+__aligned\(256\)\s+raid_(\w+)((?:\[\d+\])+)\s*=\s*\{(.*?)\n\};', src, re.S):
         name, dims, body = m.group(1), m.group(2), m.group(3)
         dims = [int(x) for x in re.findall(r'\[(\d+)\]', dims)]
         body = re.sub(r'/\*.*?\*/', '', body, flags=re.S)
-        vals = [int(x, 16) for x in re.findall(r'0x([0-9a-fA-F]+)', body)]
-        out[name] = (dims, vals)
+        body = re.sub(r'#.*', '', body)
+        out[name] = (dims, _fill(_nested(body), dims))
     return out
 
+
 def rows(dims, vals):
-    """tables whose innermost declared dimension is 256 but hold fewer initialisers per row
-    (gfvandermonde[3][256], gfcauchy[6][256] hold 251 resp. 251) are zero padded by C."""
-    n = 1
-    for d in dims: n *= d
-    if len(vals) == n:
-        return vals
-    inner = dims[-1]
-    outer = n // inner
-    if len(vals) % outer != 0:
-        raise SystemExit("UNSUPPORTED table shape %r with %d values" % (dims, len(vals)))
-    per = len(vals) // outer
-    res = []
-    for r in range(outer):
-        res += vals[r*per:(r+1)*per] + [0]*(inner-per)
-    return res
+    return vals
+
 
 def main(path, outp):
     t = parse(open(path).read())
@@ -40,7 +68,7 @@ def main(path, outp):
             raise SystemExit("UNSUPPORTED: table %s not found" % n)
         dims, vals = t[n]
         flat = rows(dims, vals)
-        lines.append("(* dims %s, %d initialisers in source *)" % (dims, len(vals)))
+        lines.append("(* dims %s *)" % (dims,))
         lines.append("Definition %s_dims : list N := [%s]." % (n, "; ".join(map(str, dims))))
         # one row per value of the first index (a single 65536-element list overflows coqc's stack);
         # one-dimensional tables are a single row
